@@ -16,7 +16,7 @@ def showSt : CSt → String
   | .init => "init" | .sockOpen => "sockOpen" | .hsDone => "hsDone" | .connected => "connected" | .closed => "closed"
 
 def showOutcome : Outcome → String
-  | .ok => "ok" | .err e => s!"err:{showErr e}" | .rawRuntime => "raw:RuntimeError"
+  | .ok => "ok" | .err e => s!"err:{showErr e}"
 
 def showState (s : State) : String :=
   let fatal := match s.fatal with | none => "none" | some (.api e) => showErr e | some .raw => "raw"
@@ -31,7 +31,7 @@ def showState (s : State) : String :=
   let start := match s.start with | .idle => "idle" | .done o => showOutcome o | _ => "pending"
   let finish := match s.finish with | .idle => "idle" | .done o => showOutcome o | _ => "pending"
   let disc := match s.disc with | .idle => "idle" | .done => (if s.discRaw then "raw" else if s.discCancelled then "raw:CancelledError" else "done") | _ => "pending"
-  s!"st={showSt s.st} conn={if s.st == .connected then 1 else 0} hs={if hsComplete s then 1 else 0} fatal={fatal} stops=[{stops}] tr={tr} sock={sock} timers=[{" ".intercalate timers}] writes={s.writes} deliv={s.deliveries} start={start} finish={finish} disc={disc}"
+  s!"st={showSt s.st} conn={if s.st == .connected then 1 else 0} hs={if hsComplete s then 1 else 0} fatal={fatal} stops=[{stops}] tr={tr} sock={sock} timers=[{" ".intercalate timers}] writes={s.writes} deliv={s.deliveries} start={start} finish={finish} disc={disc} refused={s.refused}"
 
 def parsePkt (w : String) : Option Pkt :=
   match w with
